@@ -239,3 +239,27 @@ Definition carried (timescale perMinute : Z) (seg : Z * Z) : option Z :=
   | Ok (Some em) => Some (e_pt em)
   | _ => None
   end.
+
+(** ** Schedule (specification side of C13_exactly_once) *)
+
+(** splice time of offset [off] (seconds) in wall-clock minute [m], in track timescale units *)
+Definition sched_time (ts m off : Z) : Z := (60 * m + off) * ts.
+(** the instant at which it is announced *)
+Definition announce_of (ts sigma : Z) : Z := sigma - announce_lead * ts.
+(** the segment (s,e] contains the instant a *)
+Definition in_seg (a : Z) (seg : Z * Z) : bool := (fst seg <? a) && (a <=? snd seg).
+(** the segment of a sequence that contains the instant a (first one; for a contiguous sequence the only one) *)
+Definition holder (a : Z) (segs : list (Z * Z)) : option (Z * Z) := find (in_seg a) segs.
+Definition carries (timescale perMinute sigma : Z) (seg : Z * Z) : bool :=
+  match carried timescale perMinute seg with Some x => x =? sigma | None => false end.
+(** how many segments of the sequence carry an event for the splice time sigma *)
+Definition announcements (timescale perMinute sigma : Z) (segs : list (Z * Z)) : Z :=
+  lenZ (filter (carries timescale perMinute sigma) segs).
+Definition seq_start (segs : list (Z * Z)) : Z := match segs with [] => 0 | (s, _) :: _ => s end.
+Definition seq_end (segs : list (Z * Z)) : Z := snd (last segs (0, 0)).
+(** all events of a segment sequence, in order *)
+Definition events (timescale perMinute : Z) (segs : list (Z * Z)) : list Z :=
+  flat_map (fun seg => match carried timescale perMinute seg with Some x => [x] | None => [] end) segs.
+(** the events whose splice time lies in wall-clock minute [m] *)
+Definition events_in_minute (timescale perMinute m : Z) (segs : list (Z * Z)) : list Z :=
+  filter (fun sigma => sigma / (60 * timescale) =? m) (events timescale perMinute segs).
